@@ -70,6 +70,8 @@ class Engine:
         self.depth = 0
         self.call_stack = []
         self.frame_writes = None
+        self._objs = {}
+        self.nalloc = 0
         Ver._n = 0
         PObj._n = 0
 
@@ -745,8 +747,23 @@ class Engine:
         return self.contracts.get(fr.closure.qualname())
 
     def modified_in(self, body, fr):
-        """syntactic over-approximation of the names assigned and objects written in a loop body"""
-        names, objs = set(), set()
+        """syntactic over-approximation of the names assigned and the object paths written in a loop body.
+        Paths are dotted: 'D' (the whole object D refers to) or 'self._variables' (one attribute / sub-object)."""
+        names, paths = set(), set()
+
+        def path_of(e):
+            parts = []
+            while isinstance(e, ast.Attribute):
+                parts.append(e.attr)
+                e = e.value
+            if isinstance(e, ast.Name):
+                return ".".join([e.id] + parts[::-1])
+            return None
+
+        def base_name(e):
+            while isinstance(e, (ast.Subscript, ast.Attribute, ast.Call)):
+                e = e.value if not isinstance(e, ast.Call) else e.func
+            return e.id if isinstance(e, ast.Name) else None
 
         class V(ast.NodeVisitor):
             def visit_Assign(v, node):
@@ -768,26 +785,69 @@ class Engine:
                 elif isinstance(t, (ast.Tuple, ast.List)):
                     for e in t.elts:
                         v.target(e)
-                elif isinstance(t, (ast.Subscript, ast.Attribute)):
-                    b = t.value
-                    while isinstance(b, (ast.Subscript, ast.Attribute)):
-                        b = b.value
-                    if isinstance(b, ast.Name):
-                        objs.add(b.id)
+                elif isinstance(t, ast.Attribute):
+                    p = path_of(t)
+                    if p is not None:
+                        paths.add(p)
+                    else:
+                        b = base_name(t)
+                        if b:
+                            paths.add(b)
+                elif isinstance(t, ast.Subscript):
+                    p = path_of(t.value)
+                    if p is not None:
+                        paths.add(p)
+                    else:
+                        b = base_name(t)
+                        if b:
+                            paths.add(b)
 
             def visit_Call(v, node):
                 f = node.func
-                if isinstance(f, ast.Attribute):
-                    b = f.value
-                    while isinstance(b, (ast.Subscript, ast.Attribute)):
-                        b = b.value
-                    if isinstance(b, ast.Name) and f.attr not in PURE_METHODS:
-                        objs.add(b.id)
+                if isinstance(f, ast.Attribute) and f.attr not in PURE_METHODS:
+                    p = path_of(f.value)
+                    if p is not None:
+                        paths.add(p)
+                    else:
+                        b = base_name(f.value)
+                        if b:
+                            paths.add(b)
                 v.generic_visit(node)
         vis = V()
         for st in body:
             vis.visit(st)
-        return names, objs
+        # drop paths subsumed by a shorter one
+        paths = {p for p in paths if not any(p != q and p.startswith(q + ".") for q in paths)}
+        return names, paths
+
+    def resolve_path(self, fr, path):
+        """-> (owner PObj or None, attr or None, value)"""
+        parts = path.split(".")
+        try:
+            v = self.load_name(parts[0], fr)
+        except Unsupported:
+            return None, None, None
+        owner, attr = None, None
+        for a in parts[1:]:
+            if not isinstance(v, PObj) or a not in v.attrs:
+                return None, None, None
+            owner, attr = v, a
+            v = v.attrs[a]
+        return owner, attr, v
+
+    def havoc_path(self, fr, path):
+        owner, attr, v = self.resolve_path(fr, path)
+        if v is None and owner is None:
+            return set()
+        keys = set()
+        if owner is not None:
+            keys.add((id(owner), attr))
+        if isinstance(v, (DictVal, PObj, SetVal)):
+            keys |= set(self.snapshot([v]).keys())
+            self.havoc_object(v, path.replace(".", "_"))
+        elif owner is not None and not (v is None or isinstance(v, str)):
+            self.write_attr(owner, attr, self.havoc_value(v, path.replace(".", "_")))
+        return keys
 
     def havoc_value(self, v, hint):
         """fresh value of the same shape"""
@@ -830,26 +890,51 @@ class Engine:
         qn = fr.closure.qualname()
         kindname = "loop%d" % ordinal
         names, objnames = self.modified_in(s.body, fr)
+        for extra in spec.get("modifies", ()):
+            objnames.add(extra)
+        objnames = {p for p in objnames if not any(p != q and p.startswith(q + ".") for q in objnames)}
         # ---- the collection
+        filt = None
+        if isinstance(it, SeqIter) and it.kind == "filtered":
+            filt, it = it.data
+        if isinstance(it, tuple) and it and all(isinstance(x, SV) and x.t == "label" for x in it):
+            it = SV(self.as_key(it), "key")
         if isinstance(it, ItemsView):
-            coll = it.ver
+            ckind, coll = "dict", it.ver
             if not it.snapshot and it.owner is not None:
                 for on in objnames:
-                    o = fr.locals.get(on)
+                    o = self.resolve_path(fr, on)[2]
                     if o is it.owner or (isinstance(o, PObj) and o.store is it.owner):
                         raise Unsupported("loop body writes the dict being iterated")
+        elif isinstance(it, SV) and it.t == "key":
+            ckind, coll = "key", it
+        elif isinstance(it, SeqIter) and it.kind == "range":
+            ckind = "range"
+            a = it.data
+            lo, hi = (0, a[0]) if len(a) == 1 else (a[0], a[1])
+            if len(a) > 2:
+                raise Unsupported("range with step")
+            coll = (zint(lo), zint(hi))
         else:
             raise Unsupported("symbolic loop over %s" % type(it).__name__)
         inv_src = spec["invariant"]
+        gname = "visited%d" % ordinal
 
-        def inv(visited):
+        def inv(ghost):
             env = dict(fr.locals)
-            env["visited"] = visited
+            env["visited"] = ghost
+            env[gname] = ghost
             t = self.tobool(self.eval_spec(inv_src, env, fr))
             return z3.BoolVal(t) if isinstance(t, bool) else t
         # ---- init
-        emptyv = FO.empty(self, coll.ksort, coll.vsort)
-        self.oblige("%s/%s.init" % (qn, kindname), inv(emptyv))
+        if ckind == "dict":
+            g0 = FO.empty(self, coll.ksort, coll.vsort)
+        elif ckind == "key":
+            g0 = SV(T.empty_key(), "key")
+            self.facts.key(g0.e)
+        else:
+            g0 = SV(coll[0], "int")
+        self.oblige("%s/%s.init" % (qn, kindname), inv(g0))
         # ---- havoc
         live = [n for n in names if n in fr.locals]
         for n in live:
@@ -857,41 +942,78 @@ class Engine:
             if isinstance(v, (DictVal, PObj, SetVal)):
                 continue
             fr.locals[n] = self.havoc_value(v, n)
-        havoc_objs = []
+        allowed = set()
         for on in sorted(objnames | set(live)):
-            o = fr.locals.get(on)
-            if isinstance(o, (DictVal, PObj, SetVal)) and o not in havoc_objs:
-                havoc_objs.append(o)
-                self.havoc_object(o, on)
-        saved_locals = dict(fr.locals)
+            allowed |= self.havoc_path(fr, on)
+        alloc_mark = getattr(self, "nalloc", 0)
         # ---- step (explored as a side path: decisions made inside the step are local to it)
-        mode = spec.get("_mode")
         if self.loop_phase(ordinal, fr) == "step":
-            vis = FO.base(self, coll.ksort, coll.vsort, "visited", subdict_of=coll)
-            self.assume(inv(vis))
-            k = self.fresh("key" if coll.ksort == T.Key else "label", "k")
-            self.assume(z3.Select(coll.dom, k.e))
-            self.assume(z3.Not(z3.Select(vis.dom, k.e)))
-            vv = z3.Select(coll.val, k.e)
-            v = SV(vv, "real" if coll.vsort == T.Real else "int")
-            FO.note_present(self, coll, k.e, vv)
-            # visited is a sub-dict of coll: agree on values
-            item = {"items": (k, v), "keys": k, "values": v}[it.mode]
-            self.assign(s.target, item, fr)
-            broke = False
-            try:
-                self.exec_block(s.body, fr)
-            except _Continue:
-                pass
-            except _Break:
-                broke = True
-            if broke:
-                raise Unsupported("break inside an invariant loop")
-            vis2 = FO.setitem(self, vis, k.e, vv)
+            if ckind == "dict":
+                vis = FO.base(self, coll.ksort, coll.vsort, "visited", subdict_of=coll)
+                fr.locals[gname] = vis
+                self.assume(inv(vis))
+                k = self.fresh("key" if coll.ksort == T.Key else "label", "k")
+                self.assume(z3.Select(coll.dom, k.e))
+                self.assume(z3.Not(z3.Select(vis.dom, k.e)))
+                vv = z3.Select(coll.val, k.e)
+                v = SV(vv, "real" if coll.vsort == T.Real else "int")
+                FO.note_present(self, coll, k.e, vv)
+                item = {"items": (k, v), "keys": k, "values": v}[it.mode]
+                vis2 = FO.setitem(self, vis, k.e, vv)
+            elif ckind == "key":
+                pre = self.fresh("key", "pre")
+                rest = self.fresh("key", "rest")
+                i = self.fresh("label", "i")
+                fr.locals[gname] = pre
+                self.assume(inv(pre))
+                pre2 = SV(self.facts.concat(pre.e, self.facts.unit(i.e)), "key")
+                self.assume(coll.e == self.facts.concat(pre2.e, rest.e))
+                self.facts.add(T.memb(i.e, coll.e))
+                item, vis2 = i, pre2
+            else:
+                cnt = self.fresh("int", "i")
+                fr.locals[gname] = cnt
+                self.assume(z3.And(cnt.e >= coll[0], cnt.e < coll[1]))
+                self.assume(inv(cnt))
+                item, vis2 = cnt, SV(cnt.e + 1, "int")
+            skip = False
+            if filt is not None:
+                if not self.branch(self.tobool(self.call(filt, [item], {}))):
+                    skip = True
+            if not skip:
+                self.assign(s.target, item, fr)
+                saved_fw = self.frame_writes
+                self.frame_writes = set()
+                try:
+                    self.exec_block(s.body, fr)
+                except _Continue:
+                    pass
+                except _Break:
+                    raise Unsupported("break inside an invariant loop")
+                finally:
+                    fw, self.frame_writes = self.frame_writes, saved_fw
+                    if saved_fw is not None:
+                        saved_fw |= fw
+                for w in fw:
+                    if w not in allowed and self._preexisting(w, alloc_mark):
+                        raise Unsupported("loop frame inference missed a write to %r" % (w,))
+            fr.locals[gname] = vis2
             self.oblige("%s/%s.step" % (qn, kindname), inv(vis2))
             raise PathInfeasible()      # the step path ends here
         # ---- exit
-        self.assume(inv(coll))
+        if ckind == "dict":
+            gN = coll
+        elif ckind == "key":
+            gN = coll
+        else:
+            gN = SV(z3.If(coll[1] >= coll[0], coll[1], coll[0]), "int")
+        fr.locals[gname] = gN
+        self.assume(inv(gN))
+
+    def _preexisting(self, w, mark):
+        oid = w[0] if isinstance(w, tuple) else w
+        o = self._objs.get(oid)
+        return o is None or getattr(o, "birth", 0) <= mark
 
     def loop_phase(self, ordinal, fr):
         """Each invariant loop forks the path into 'step' and 'exit'. The fork is a (non-solver) decision."""
@@ -994,6 +1116,7 @@ class Engine:
     def alloc(self, o):
         self.nalloc = getattr(self, "nalloc", 0) + 1
         o.birth = self.nalloc
+        self._objs[id(o)] = o
         return o
 
     def ex_UnaryOp(self, n, fr):
@@ -1219,7 +1342,7 @@ class Engine:
             if obj.name == "QUBOVertWarning" and name == "warn":
                 return Builtin("warn")
             return Builtin(obj.name + "." + name)
-        if isinstance(obj, (DictVal, ListVal, SetVal, ItemsView, tuple, list, dict, str, frozenset, AssignVal)) or \
+        if isinstance(obj, (DictVal, ListVal, SetVal, ItemsView, tuple, list, dict, str, frozenset, AssignVal, SeqIter)) or \
            (isinstance(obj, SV) and obj.t == "key"):
             return Builtin("m." + name, recv=obj)
         if isinstance(obj, BuiltinClass):
